@@ -5,7 +5,11 @@ import json, os, re, subprocess, sys, time, hashlib, shutil
 
 VERIF = os.path.dirname(os.path.dirname(os.path.abspath(__file__)))
 SPEC = os.path.join(VERIF, "spec")
-OUT = os.path.join(VERIF, "out")
+# VERIF_SCRATCH=<name>: a private scratch + evidence area (out/<name>/...), so that an evaluation run of a
+# check (e.g. against a seeded change) does not collide with a normal run of the same check
+SCRATCH = os.environ.get("VERIF_SCRATCH", "")
+OUT = os.path.join(VERIF, "out", SCRATCH) if SCRATCH else os.path.join(VERIF, "out")
+EVIDENCE_DIR = os.path.join(OUT, "evidence") if SCRATCH else os.path.join(VERIF, "evidence")
 HARNESS = os.path.join(VERIF, "harness")
 VH = os.environ.get("VERIF_VH") or os.path.join(HARNESS, "target", "release", "vh")
 TLA_CP = "/opt/veriftools/tla/tla2tools.jar:/opt/veriftools/tla/CommunityModules-deps.jar"
@@ -138,8 +142,8 @@ def write_evidence(pid, tier, level, coverage, assumptions, wall, violations, ex
           "assumptions": assumptions, "wall_s": round(wall, 2), "violations": violations}
     if extra:
         ev.update(extra)
-    os.makedirs(os.path.join(VERIF, "evidence"), exist_ok=True)
-    with open(os.path.join(VERIF, "evidence", f"{pid}.json"), "w") as f:
+    os.makedirs(EVIDENCE_DIR, exist_ok=True)
+    with open(os.path.join(EVIDENCE_DIR, f"{pid}.json"), "w") as f:
         json.dump(ev, f, indent=1, ensure_ascii=False)
         f.write("\n")
 
